@@ -203,6 +203,33 @@ theorem binS_sound (w : World) (chk : Bool) (op : BinOp) {x y : SVal} {vx vy : V
             simp only [evalBin, hg, if_false]
             exact ⟨_, rfl, by simp [Matches]⟩
           · exact absurd h (by simp)
+      | bxor =>
+        simp only [binS] at h
+        split at h
+        · rename_i ht; subst ht
+          obtain ⟨hnt, rfl⟩ := mkInt_ok h
+          simp only [evalBin, if_true]
+          exact ⟨_, rfl, by simp [hla, hlb], by rw [den_xor _ _ hla hlb hnt]⟩
+        · exact absurd h (by simp)
+      | eqq =>
+        simp only [binS] at h
+        split at h
+        · exact absurd h (by simp)
+        · rename_i ht
+          have ht : t = t' := by simpa using ht
+          subst ht
+          split at h
+          · rename_i yb hyb
+            have hyl : yb < 2 ^ a.length := by
+              rw [← isConst_den w.raw w.fv _ _ hyb, hla, ← hlb]; exact den_lt _ _ _
+            rw [isConst_den _ _ _ _ hyb]
+            split at h
+            · exact absurd h (by simp)
+            · rename_i hnt
+              injection h with h; subst h
+              simp only [evalBin, if_true]
+              exact ⟨_, rfl, by simp only [Matches]; rw [eqConst_spec _ _ _ _ hyl hnt]⟩
+          · exact absurd h (by simp)
     | bool _ => cases op <;> simp [binS] at h
     | uint _ _ => cases op <;> simp [binS] at h
     | cust => cases op <;> simp [binS] at h
